@@ -1,6 +1,6 @@
-From V Require Import Base.IO Model.C01 Judge.C01.
+From V Require Import Base.IO Model.C01b Judge.C01b.
 Require Extraction.
 Require Import ExtrOcamlBasic.
-Definition verif_run_line := run_line Model.C01.run.
-Definition verif_judge_line := judge_line Judge.C01.judge.
+Definition verif_run_line := run_line Model.C01b.run.
+Definition verif_judge_line := judge_line Judge.C01b.judge.
 Extraction "model_C01.ml" verif_run_line verif_judge_line.
